@@ -17,6 +17,8 @@ Deductive part (index-level domain, symbolic H, W, kH <= H, kW <= W):
                   triple per (pixel, non-zero tap) with weight = centred_psf at the periodic pixel difference, no two triples at one position, every
                   non-zero of the convolution matrix covered); scipy's COO->CSR assembly is assumed.  Agreement of the restorations through the
                   builders is bounded.
+  generators      build_psf_gaussian, every radius and sigma > 0 (provenance domain): an array of positive entries divided by its own total, shape
+                  (2r+1, 2r+1) - unit sum by linearity of the total; build_psf_motion (sampling loop with rounding) is bounded.
 Bounded stand-in: impulse response / mass / path agreement on H,W <= 6, kernels <= image, odd/even, asymmetric."""
 from __future__ import annotations
 
@@ -237,6 +239,7 @@ def deductive(rep: Report, tier):
     # ----------------------------------------------------------------------------- the dense BCCB builder of the application, all sizes
     builders(rep)
     sparse_builder(rep)
+    psf_generators(rep)
 
 
 def matrix_path(rep: Report):
@@ -347,7 +350,7 @@ def builders(rep: Report):
         return fn
 
     class Outer(LoopRule):
-        modifies = ("cols", "i", "j", "shifted")
+        modifies = ("cols", "i", "j")          # the list and the counters; temporaries of the body are not named (they are re-assigned before use)
         expects = {"target": "i"}
 
         def establish(self, it, fr, start):
@@ -363,7 +366,7 @@ def builders(rep: Report):
             cur().require("inv.preserve", ok, "after row i the list holds the columns of rows 0..i", key="outer.inv.preserve.all_columns_of_the_row_appended")
 
     class Inner(LoopRule):
-        modifies = ("cols", "j", "shifted")
+        modifies = ("cols", "j")
         expects = {"target": "j"}
 
         def establish(self, it, fr, start):
@@ -517,7 +520,7 @@ def sparse_builder(rep: Report):
         return cur().ghost["taps"][3]
 
     class Outer(LoopRule):
-        modifies = LISTS + ("i", "j", "base_i", "r", "c", "ii", "jj")
+        modifies = LISTS + ("i", "j")
         expects = {"target": "i"}
 
         def establish(self, it, fr, start):
@@ -536,7 +539,7 @@ def sparse_builder(rep: Report):
                 cur().require("inv.preserve", is_at(v, k + 1, 0, 0) or is_at(v, k, W, 0), f"after image row i, {n} holds the triples of rows 0..i", key=f"outer.inv.preserve.{n}")
 
     class Mid(LoopRule):
-        modifies = LISTS + ("j", "r", "c", "ii", "jj")
+        modifies = LISTS + ("j",)
         expects = {"target": "j"}
 
         def establish(self, it, fr, start):
@@ -554,7 +557,7 @@ def sparse_builder(rep: Report):
                 cur().require("inv.preserve", is_at(v, i, k + 1, 0) or is_at(v, i, k, L_of()), f"after pixel (i,j), {n} holds the triples of all pixels up to it", key=f"mid.inv.preserve.{n}")
 
     class Taps(LoopRule):
-        modifies = LISTS + ("r", "c", "ii", "jj")
+        modifies = LISTS
         expects = {"target": "(du, dv, w)"}
 
         def establish(self, it, fr, start):
@@ -640,6 +643,72 @@ def sparse_builder(rep: Report):
              clauses=["returns_a_sparse_matrix", "shape_is_HW_by_HW", "built_from_all_triples_as_data_rows_cols",
                       "lemma.different_taps_of_a_pixel_go_to_different_columns", "lemma.every_nonzero_of_the_convolution_matrix_has_its_triple", "hypotheses_consistent"],
              replay=replay_restore, timeout_s=30, model_replay=replay_builder_model("sparse"))
+
+
+def psf_generators(rep: Report):
+    """build_psf_gaussian in the provenance domain, every radius r >= 0 and sigma > 0: the result is X / X.sum() for ONE array X of shape
+    (2r+1, 2r+1) whose entries are exp(.) over a positive constant - so every tap is positive, the total s = X.sum() is positive, and
+    sum(X / s) = sum(X) / s = 1 (linearity of the total: library axiom).  The values of the Gaussian and build_psf_motion (a loop over sampled
+    points with rounding) are bounded."""
+    from .. import term as tm
+    from ..sym import OutOfReach
+
+    def np_arange(a, b=None, *rest, **kw):
+        if rest or kw:
+            raise OutOfReach("np.arange form")
+        lo, hi = (0, a) if b is None else (a, b)
+        return tm.TArr(("arange", tm._key(lo), tm._key(hi)), (hi - lo,))
+
+    def np_meshgrid(x, y, indexing="xy", **kw):
+        if kw or indexing not in ("xy", "ij") or not (isinstance(x, tm.TArr) and isinstance(y, tm.TArr)):
+            raise OutOfReach("np.meshgrid form")
+        shp = (y.shape[0], x.shape[0]) if indexing == "xy" else (x.shape[0], y.shape[0])
+        return [tm.TArr(("meshgrid", indexing, c, x.node, y.node), shp) for c in (0, 1)]
+
+    def np_exp(a):
+        if not isinstance(a, tm.TArr):
+            raise OutOfReach("np.exp of a scalar")
+        return tm.TArr(("exp", a.node), a.shape)
+    lib = tm.install(Library("idx"))
+    lib.np.table["arange"], lib.np.table["meshgrid"], lib.np.table["exp"] = np_arange, np_meshgrid, np_exp
+
+    def setup(I, ctx):
+        r, sg = SInt.var("radius"), SReal.var("sigma")
+        ctx.assume(r >= 0, base=True)
+        ctx.assume(sg > 0, base=True)
+        return [r, sg], {}, (r, sg)
+
+    def post(I, ctx, outcome, val, aux):
+        r, sg = aux
+        if outcome != "return" or not isinstance(val, tm.TArr):
+            return [("returns_an_array", False)]
+        out = [("returns_an_array", True), ("shape_is_2r_plus_1_square", len(val.shape) == 2 and sand(val.shape[0] == 2 * r + 1, val.shape[1] == 2 * r + 1))]
+        nd = tm.strip(val.node)
+        ok = isinstance(nd, tuple) and len(nd) == 3 and nd[0] == "div"
+        X = nd[1] if ok else None
+        tot = tm.strip(tm._key(tm.TArr(X, val.shape).sum())) if ok else None
+        out.append(("is_an_array_divided_by_its_own_total", bool(ok and nd[2] == tot)))
+        pos = False
+        if ok and isinstance(X, tuple) and len(X) == 3 and X[0] == "div" and isinstance(X[1], tuple) and X[1][0] == "exp":
+            # exp(.) / c  with  c > 0 : every entry positive, so the total is positive and the division is defined
+            c_pos = ctx.ghost.get("last_scalar_divisor")
+            pos = c_pos is not None and ctx.valid(c_pos > 0) is True
+        out.append(("entries_are_exponentials_over_a_positive_constant", pos))
+        return out
+    # the divisor of the exponential is read where it is applied: TArr / scalar records the scalar
+    orig_bin = tm.TArr._bin
+
+    def rec_bin(self, op, o, swap=False):
+        if op == "div" and not swap and not isinstance(o, tm.TArr) and isinstance(self.node, tuple) and self.node and self.node[0] == "exp":
+            cur().ghost["last_scalar_divisor"] = SReal.lift(o)
+        return orig_bin(self, op, o, swap)
+    tm.TArr._bin = rec_bin
+    try:
+        run_case(rep, P, Q + "build_psf_gaussian", "unit_sum", setup, post, lib=lib,
+                 clauses=["returns_an_array", "shape_is_2r_plus_1_square", "is_an_array_divided_by_its_own_total", "entries_are_exponentials_over_a_positive_constant"],
+                 replay=replay_blur, timeout_s=20, site_obligations=False)
+    finally:
+        tm.TArr._bin = orig_bin
 
 
 # ---------------------------------------------------------------------------------------------------
@@ -893,6 +962,7 @@ def run(tier, seed):
         "a list comprehension with a filter enumerates, in order and once each, the elements whose filter holds (Python semantics; the tap list of the sparse builder is the ghost enumeration DU, DV of the non-zero taps)",
         "the property quantifies over non-negative kernels: the tap filter of the sparse builder is checked for taps >= 0",
     ]
+    rep.assumptions.append("sum(X / s) = sum(X) / s for an array X and a non-zero real s (linearity of the total; unit sum of the Gaussian PSF)")
     rep.trusted += ["qv engine", "z3 5.1", "library model incl. FFT registry"]
     deductive(rep, tier)
     bounded(rep, tier, seed)
